@@ -191,10 +191,10 @@ type Explorer struct {
 	// Stop, when set, is polled; returning true abandons the exploration (deadline).
 	Stop func() bool
 
-	Failures   map[string]*Failure // first failure per signature
-	FailCounts map[string]int64
-	doubleRuns int
-	Aborted    bool
+	Failures    map[string]*Failure // first failure per signature
+	FailCounts  map[string]int64
+	doubleRuns  int
+	Aborted     bool
 	sampleEvery int64
 }
 
@@ -238,6 +238,9 @@ func (e *Explorer) runLeaf(points []point, maxDepth int, st *Stats, verbose bool
 }
 
 // panicSite names the innermost go-flags function on the panicking stack.
+// PanicSite names the innermost go-flags function on the panicking stack (call from a deferred function).
+func PanicSite() string { return panicSite() }
+
 func panicSite() string {
 	pcs := make([]uintptr, 64)
 	n := runtime.Callers(3, pcs)
